@@ -260,7 +260,12 @@ class AbstractPathModelDAG(ABC):
             self.solve_statistics["safe_sequences_time"] = time.perf_counter() - start_time
 
         if self.optimize_with_subpath_constraints_as_safe_sequences and len(self.subpath_constraints) > 0 and not self.is_solved():
-            if self.subpath_constraints_coverage == 1 and self.subpath_constraints_coverage_length in [1, None]:
+            # Full coverage means that every edge of the constraints is in a solution path, except that under
+            # length-based coverage an edge of length 0 does not have to be
+            all_edges_needed = self.subpath_constraints_coverage_length is None or all(
+                (not self.G.has_edge(u, v)) or self.G[u][v].get(self.length_attr, 1) > 0 for constraint in self.subpath_constraints for (u, v) in constraint
+            )
+            if self.subpath_constraints_coverage == 1 and self.subpath_constraints_coverage_length in [1, None] and all_edges_needed:
                 start_time = time.perf_counter()
                 self.safe_lists += safetypathcovers.safe_sequences(
                     G=self.G,
